@@ -50,6 +50,9 @@ var Exprs = []Expr{
 	{Re: `[a-z(]+`, Members: []string{"a(", "q"}, Non: []string{"", ")", "a:b", "a?"}},
 	{Re: `[a-z()]+`, Members: []string{"f(x)", "ab"}, Non: []string{"", "1", "a:b", "f?x"}},
 	{Re: `([0-9]+)(px|em)`, Members: []string{"120px", "3em"}, Non: []string{"px", "12"}, Groups: true},
+	{Re: `\pL+`, Members: []string{"x", "Zq"}, Non: []string{"", "1", "a1"}},
+	{Re: `[\p{Lu}0-9]+`, Members: []string{"A1", "Z", "7"}, Non: []string{"", "a", "A-"}},
+	{Re: `\PN+`, Members: []string{"ab", "-"}, Non: []string{"", "4", "a4"}},
 }
 
 // RandomExpr assembles an expression from 1..3 quantified atoms. Everything it
